@@ -6,12 +6,14 @@ from .common import hexs
 NEEDED = ["adfIsBlockFree.idx", "adfSetBlockFree.idx", "adfSetBlockUsed.idx", "bitMask"]
 
 
-def big_volume(ctx):
+def big_volume(ctx, huge=False):
     """volumes with several bitmap pages: allocation crossing the 4064-block page boundaries"""
     rng = ctx.rng
     flav = rng.choice([0, 1, 3])
-    n = rng.choice([8200, 8130, 12300, 4067 + 1, 8128 + 2 + 2])
-    n += n % 2          # even sizes: odd hardfiles lose their last block on mount (recorded under C14)
+    # 1..5 bitmap pages: the root block's page list beyond its third entry lies where an entry block has its comment (a root
+    # read as a directory and written back as a root must keep it), and - `huge` - more than 25 pages: a bitmap extension block
+    n = rng.choice([8200, 8130, 12300, 12300, 16300, 20000, 4067 + 1, 8128 + 2 + 2]) if not huge else 25 * 4064 + 2 + rng.choice([1, 500, 4064 + 7])
+    n += n % 2
     L = gen.dev_create("HF:%d" % n, flav) + ["mountdev 0", "mount 0 0"]
     bs = 512 if flav & 1 else 488
     k = 0
@@ -22,6 +24,10 @@ def big_volume(ctx):
           "free", "umount", "umountdev", "dump $W/img2", "spectree", "mountdev 0", "mount 0 0",
           "open 0 - %s w" % hexs(b"h"), "write 0 4 %d" % (300 * bs), "close 0", "free", "dump $W/img3", "spectree", "umount", "umountdev"]
     return L, 0, n, {"flavour": flav, "blocks": n}
+
+
+def huge_volume(ctx):
+    return big_volume(ctx, huge=True)
 
 
 def leaf_bits(ctx):
@@ -158,7 +164,8 @@ def run(ctx):
     if tf:
         proof["problems"].append("translator could not translate: %s" % tf)
     leaf_bits(ctx)
-    b = [("multi-page", big_volume) for _ in range(4 if ctx.tier == "quick" else 60)]
+    b = [("multi-page", big_volume) for _ in range(6 if ctx.tier == "quick" else 60)]
+    b += [("bitmap-extension-volume", huge_volume) for _ in range(1 if ctx.tier == "quick" else 6)]
     b += c01.builders(ctx)[: (80 if ctx.tier == "quick" else 1200)]
     # directories whose cache spans several blocks, emptied in several orders (cache blocks are released one by one)
     from . import c05, c07
